@@ -70,7 +70,7 @@ theorem compile_preserves (env : Env) (file : AFile) (n0 : Nat) (G : List String
     (w : World) (gw : GWorld) (hw : WRel env η w gw) (fuel : Nat) :
     match Sem.apply fuel P w (.fn f.name) args with
     | .ok v w' => ∃ m η' gv gw', η.le η' ∧ callG m (goFilePreSt env file n0).1 gw (.func (fnName f.name)) gargs = .ok gv gw' ∧
-        toGV env η' v = some gv ∧ WRel env η' w' gw'
+        VRel env η' v f.ret gv ∧ WRel env η' w' gw'
     | .fail (.panic k) w' => ∃ m η' gw', η.le η' ∧ callG m (goFilePreSt env file n0).1 gw (.func (fnName f.name)) gargs =
         .fail (.panic k) gw' ∧ WRel env η' w' gw'
     | _ => True := by
@@ -104,7 +104,7 @@ theorem compile_preserves_fragment (env : Env) (file : AFile) (n0 : Nat) (f : AF
     (w : World) (gw : GWorld) (hw : WRel env η w gw) (fuel : Nat) :
     match Sem.apply fuel P w (.fn f.name) args with
     | .ok v w' => ∃ m η' gv gw', η.le η' ∧ callG m (goFilePreSt env file n0).1 gw (.func (fnName f.name)) gargs = .ok gv gw' ∧
-        toGV env η' v = some gv ∧ WRel env η' w' gw'
+        VRel env η' v f.ret gv ∧ WRel env η' w' gw'
     | .fail (.panic k) w' => ∃ m η' gw', η.le η' ∧ callG m (goFilePreSt env file n0).1 gw (.func (fnName f.name)) gargs =
         .fail (.panic k) gw' ∧ WRel env η' w' gw'
     | _ => True := by
@@ -130,7 +130,7 @@ theorem compile_preserves_run (env : Env) (file : AFile) (n0 : Nat) (G : List St
     have := find?_of_nodup (fun g : GFunc => g.name) _ hnd _ hmainMem
     simpa [GFile.findFunc, mainFn] using this
   have hsim := (sim_all hl fuel).u f hf (hname ▸ hfG) { fns := fnSigs file G } [] [] { eager := eager } { eager := eager, capPolicy := 0 }
-    rfl (by rw [hps]; trivial) (WRel.init env eager 0 (fnSigs file G))
+    rfl (by rw [hps]; trivial) (WRel.init env eager (fnSigs file G))
   rw [hname] at hsim
   have hfn : fnName "main" = "main0" := by simp [fnName, isEntry]
   rw [hfn] at hsim
@@ -214,7 +214,7 @@ theorem compile_order (env : Env) (η : Hp) (file : AFile) (n0 : Nat) (G : List 
     (match Sem.eval fuel P ρ w v.toExpr with
      | .ok vv w1 => ∃ η1, η.le η1 ∧ ∃ env1 gv gw1,
          BlockS (goFilePreSt env file n0).1 gρ gw (letPrefix env st x v) (.ok (env1, .normal) gw1) ∧ WRel env η1 w1 gw1 ∧
-         lookupG env1 (vn x) = some gv ∧ toGV env η1 vv = some gv
+         lookupG env1 (vn x) = some gv ∧ VRel env η1 vv v.annTy gv
      | .fail (.panic k) w1 => ∀ rest, ∃ η1, η.le η1 ∧ ∃ gw1,
          BlockS (goFilePreSt env file n0).1 gρ gw (letPrefix env st x v ++ rest) (.fail (.panic k) gw1) ∧ WRel env η1 w1 gw1
      | _ => True) :=
@@ -409,12 +409,40 @@ private def exUpd : AFn :=
 example : InGoFragment {} [exArray, exUpd] 0 exArray ∧ InGoFragment {} [exArray, exUpd] 0 exUpd := by
   constructor <;> (unfold InGoFragment; decide +kernel)
 
-/-- a function that pushes to a `Vec` is outside the fragment (the model still compiles it: the tie
+/-- `Vec` is inside (under the no-spare-capacity policy of `runGo`'s default `capPolicy = 0`, which is part of `WRel`):
+    `fn push2(v, x) { vec_push(vec_push(v, x), x) }`, and a `main` that builds a vector, reads it back and prints its length
+    and an element; reading past the end panics on both sides -/
+private def tVec : Ty := .vec t32
+private def exPush2 : AFn :=
+  { name := "push2", params := [("v/0", tVec), ("x/1", t32)], ret := tVec,
+    body := .letE "t2" (.call (.var "vec_push" (.func [tVec, t32] tVec)) [.var "v/0" tVec, .var "x/1" t32] tVec)
+      (.ret (.call (.var "vec_push" (.func [tVec, t32] tVec)) [.var "t2" tVec, .var "x/1" t32] tVec)) tVec }
+private def exMainV : AFn :=
+  { name := "main", params := [], ret := .unit,
+    body :=
+      .letE "e/0" (.call (.var "vec_new" (.func [] tVec)) [] tVec)
+      (.letE "v/1" (.call (.var "push2" (.func [tVec, t32] tVec)) [.var "e/0" tVec, litI 7] tVec)
+      (.letE "n/2" (.call (.var "vec_len" (.func [tVec] t32)) [.var "v/1" tVec] t32)
+      (.letE "g/3" (.call (.var "vec_get" (.func [tVec, t32] t32)) [.var "v/1" tVec, litI 1] t32)
+      (.letE "s/4" (.bin .add (.var "n/2" t32) (.var "g/3" t32) t32)
+      (.letE "t5" (.call (.var "int32_to_string" (.func [t32] .string)) [.var "s/4" t32] .string)
+      (.letE "u/6" (.call (.var "string_println" (.func [.string] .unit)) [.var "t5" .string] .unit)
+      (.letE "b/7" (.call (.var "vec_get" (.func [tVec, t32] t32)) [.var "e/0" tVec, litI 0] t32)
+      (.ret (.call (.var "string_println" (.func [.string] .unit)) [.prim (.str "unreachable") .string] .unit))
+      .unit) .unit) .unit) .unit) .unit) .unit) .unit) .unit }
+private def exFileV : AFile := [exPush2, exMainV]
+example : InGoFragment {} exFileV 0 exPush2 ∧ InGoFragment {} exFileV 0 exMainV := by
+  constructor <;> (unfold InGoFragment; decide +kernel)
+example : (Sem.run 200 (progOf exFileV)).status = "panic:index out of range" ∧ (Sem.run 200 (progOf exFileV)).out = "9\n" := by
+  decide +kernel
+
+/-- a function that makes a trait object is outside the fragment (the model still compiles it: the tie
     covers it, the theorem does not) -/
-private def exVec : AFn :=
-  { name := "push", params := [("v/0", .vec t32)], ret := .vec t32,
-    body := .ret (.call (.var "vec_push" (.func [.vec t32, t32] (.vec t32))) [.var "v/0" (.vec t32), litI 1] (.vec t32)) }
-example : ¬ InGoFragment {} [exVec] 0 exVec := by unfold InGoFragment; decide +kernel
+private def exDyn : AFn :=
+  { name := "mkdyn", params := [("a/0", t32)], ret := .dyn "Show",
+    body := .ret (.toDyn "Show" t32 (.var "a/0" t32) (.dyn "Show")) }
+example : ¬ InGoFragment {} [exDyn] 0 exDyn := by unfold InGoFragment; decide +kernel
+
 /-- function values are inside: a top-level function passed as an argument (`apply(inc, 41)`) and called through the
     parameter that holds it (`f(x)`: a Go call through a variable of function type) -/
 private def tFn : Ty := .func [t32] t32
